@@ -28,6 +28,8 @@ import AriadneModel.Model.WsClientOT
 import AriadneModel.Spec.GraphqlTransportWs
 import AriadneModel.Spec.WsConnect
 import AriadneModel.Proofs.WsClient
+import AriadneModel.Model.SubscriptionMethod
+import AriadneModel.Proofs.SubscriptionMethod
 
 set_option linter.unusedSimpArgs false
 set_option linter.unusedVariables false
@@ -579,5 +581,104 @@ example :
   · rw [yields_in_order_partial cfg0 none frAck _ none cfg0_ok frAck_isAck hv]
     simp [prefixUntilTerminal, continuesF, frNext, frPing, frComplete, letter, J.lookup, Letter.continues,
       Letter.truthyNextData, J.truthy]
+
+/-! ## 8. The GENERATED subscription method (client_generators/client.py) composed with `execute_ws`
+
+  `SubMethod.emit` = which name `_generate_subscription_method_def` puts in which position after
+  `get_variable_names`; `SubMethod.call` = Python's evaluation of those statements; `runMethod` =
+  that call handed to the base client.  Parameter list and variables dict (ArgumentsGenerator,
+  C03) are inputs, universally quantified. -/
+
+open Ariadne.SubMethod in
+/-- the model of a generated subscription method on the extracted tables -/
+def runGenerated (cfg : Cfg) (params : List String) (dict : List (String × String)) (opName opText : String)
+    (args : List (String × PV)) (frames : List Frame) : Trace :=
+  SubMethod.runMethod Tables.wsTypesAsync Tables.wsSubprotocolAsync cfg (SubMethod.emit params dict opName)
+    opText params args frames
+
+/-- The generated signature is a legal Python signature whose variables dict only mentions its own
+    parameters, and the (possibly renamed) locals `query` / `variables` are not parameters
+    themselves.  The complement is C03's finding region (C03-F1: `$query` together with `$_query`,
+    C03-F2/F3: a variable called `self` / `kwargs`), not judged by C13. -/
+structure MethodWF (params : List String) (dict : List (String × String)) : Prop where
+  noSelf : "self" ∉ params
+  noKwargs : "kwargs" ∉ params
+  dictFromParams : ∀ kv ∈ dict, kv.2 ∈ params
+  queryLocalFree : (SubMethod.emit params dict "").queryTarget ∉ params
+  varsLocalFree : (SubMethod.emit params dict "").varsTarget ∉ params
+
+/-- the caller's values under the original GraphQL names -/
+def callerVariables (dict : List (String × String)) (args : List (String × PV)) : List (String × PV) :=
+  dict.map fun kv => (kv.1, SubMethod.argValue args kv.2)
+
+/-- **generated_method_call**: for every parameter-name list (the names that clash with the method's
+    locals - `query`, `variables`, `response`, `data` - included: they are renamed consistently) the
+    generated body passes the operation document as `query=`, the caller's values under the
+    GraphQL names as `variables=`, and the caller's `**kwargs`. -/
+theorem generated_method_call (params : List String) (dict : List (String × String)) (opName opText : String)
+    (args : List (String × PV)) (h : MethodWF params dict) :
+    SubMethod.call (SubMethod.emit params dict opName) opText (SubMethod.initEnv params args) =
+      .ok (.doc, .vars (callerVariables dict args), .kwargs) :=
+  SubMethodProofs.emitted_call params dict opName opText args h.noSelf h.noKwargs h.dictFromParams
+    h.queryLocalFree h.varsLocalFree
+
+/-- the generated method is `execute_ws` on (operation document, operation name, caller's variables) -/
+theorem generated_method_runs_execute_ws (cfg : Cfg) (params : List String) (dict : List (String × String))
+    (opName opText : String) (args : List (String × PV)) (frames : List Frame) (h : MethodWF params dict) :
+    runGenerated cfg params dict opName opText args frames =
+      runPlain { cfg with query := opText, opName := some opName } (some (callerVariables dict args)) frames := by
+  have hc := generated_method_call params dict opName opText args h
+  unfold runGenerated SubMethod.runMethod SubMethod.runMethodWith
+  rw [hc]
+  rfl
+
+/-- **generated_method_subscribe**: after the ack the generated method sends exactly one subscribe,
+    carrying the operation document, the operation's name and the serialised caller's variables -
+    for every variable-name list, configuration and frame list. -/
+theorem generated_method_subscribe (cfg : Cfg) (params : List String) (dict : List (String × String))
+    (opName opText : String) (args : List (String × PV)) (a : Frame) (fs : List Frame) (v : Option J)
+    (h : MethodWF params dict) (hk : NoDupKw cfg) (ha : (letter a).isAck = true)
+    (hv : Serialised (some (callerVariables dict args)) v) :
+    (runGenerated cfg params dict opName opText args (a :: fs)).sent.filter Msg.isSubscribe =
+      [.subscribe cfg.opId opText (some opName) v] := by
+  rw [generated_method_runs_execute_ws cfg params dict opName opText args (a :: fs) h]
+  exact (exactly_one_subscribe { cfg with query := opText, opName := some opName } _ a fs v hk ha hv).2.1
+
+def PV.isUnset : PV → Bool
+  | .unset => true
+  | _ => false
+
+/-- arguments left `UNSET` are omitted from the serialised variables -/
+theorem variables_omit_unset (kvs : List (String × PV)) :
+    convDict kvs = convDict (kvs.filter fun kv => !PV.isUnset kv.2) := by
+  induction kvs with
+  | nil => rfl
+  | cons kv kvs ih =>
+    obtain ⟨k, v⟩ := kv
+    cases v <;> simp [convDict, PV.isUnset, List.filter_cons, ih]
+
+/-- the clashing names of the coordinator's seeded change: `$query`, `$variables`, `$data` -/
+example : MethodWF ["query", "limit", "variables", "data"]
+    [("query", "query"), ("limit", "limit"), ("variables", "variables"), ("data", "data")] := by
+  refine ⟨by decide, by decide, by decide, ?_, ?_⟩ <;>
+    simp [SubMethod.emit, ClientMethod.getVariableNames, ClientMethod.rename, ClientMethod.selfName]
+
+example : (SubMethod.emit ["query", "limit"] [("query", "query"), ("limit", "limit")] "Search").callQuery = "_query" := by
+  simp [SubMethod.emit, ClientMethod.getVariableNames, ClientMethod.rename, ClientMethod.selfName]
+
+/-- what the theorem excludes: a body that passes the un-renamed name `query` sends the caller's
+    argument as the document (this is the seeded change C13-subscription-query-shadow) -/
+example :
+    SubMethod.call { SubMethod.emit ["query"] [("query", "query")] "Search" with callQuery := "query" } "DOC"
+        (SubMethod.initEnv ["query"] [("query", .str "needle")])
+      = .ok (.arg (.str "needle"), .vars [("query", .str "needle")], .kwargs) := by
+  simp [SubMethod.call, SubMethod.emit, SubMethod.initEnv, SubMethod.assign, SubMethod.lookup, SubMethod.evalDict,
+    SubMethod.argValue, ClientMethod.getVariableNames, ClientMethod.rename, ClientMethod.selfName]
+
+/-- outside `MethodWF` (C03-F1, not judged here): `$query` and `$_query` together -/
+example : ¬ MethodWF ["query", "_query"] [("query", "query"), ("_query", "_query")] := by
+  intro h
+  have := h.queryLocalFree
+  simp [SubMethod.emit, ClientMethod.getVariableNames, ClientMethod.rename, ClientMethod.selfName] at this
 
 end Ariadne.C13
